@@ -124,6 +124,8 @@ def c05(F, R, tier):
     c14.loops(F, R)
     import c04rt
     c04rt.check(F, R, tier, props=("C05",))
+    import c05rt
+    c05rt.check(F, R, tier, props=("C05",))
 
 
 @prop("C04",
@@ -139,6 +141,8 @@ def c04(F, R, tier):
     c14.canonical_start(F, R)
     import c04rt
     c04rt.check(F, R, tier, props=("C04",))
+    import c05rt
+    c05rt.check(F, R, tier, props=("C04",))
 
 
 @prop("C17",
@@ -159,6 +163,8 @@ def c13(F, R, tier):
     mod.check(F, R)
     import c04
     c04.tableau_readback(F, R)
+    import c05rt
+    c05rt.check(F, R, tier, props=("C04", "C05"))
 
 
 @prop("C19",
@@ -272,6 +278,8 @@ def c03(F, R, tier):
 def c14(F, R, tier):
     import c14 as mod
     mod.check(F, R)
+    import c05rt
+    c05rt.check(F, R, tier, props=("C14", "C05"))
 
 
 @prop("C18",
